@@ -48,6 +48,23 @@ func (k Keeper) RandomIndex(seed *big.Int, total, count int) []int {
 			}
 		}
 		if duplicate {
+			if seed.Sign() == 0 {
+				// the seed is used up (every further draw would be 0 again):
+				// fill up with the lowest indexes not drawn yet
+				for i := 0; i < total && count > 0; i++ {
+					taken := false
+					for _, v := range idx {
+						if i == v {
+							taken = true
+						}
+					}
+					if !taken {
+						idx = append(idx, i)
+						count -= 1
+					}
+				}
+				break
+			}
 			continue
 		}
 		idx = append(idx, rs)
